@@ -14,11 +14,12 @@ CLAIM = dict(
           ":b[:+s] with b >= -n; a:[:+s] with 0<=a<=n; a::-s with 0<=a<n; a:b[:+s] with ordered in-range bounds or stop "
           "past the end) the model's length and every source index equal Python's; (2) C05_core_sound_on_box / "
           "C05_core_coverage_on_box — vm_compute sweeps over the stated box; (3) C05_refuted_* — witnesses of every "
-          "failing family; (4) C05_multi_axis — axes compose, integers drop their axis, one ellipsis expands to full "
-          "slices. Correspondence: the model (image of compute_range / compute_step / compute_index / shape_slice / slice / "
+          "failing family, incl. binary32 lengths above 2^24 and the trailing-ellipsis read that makes the typed-tuple "
+          "and the run-time-list encodings disagree; (4) C05_multi_axis — axes compose, integers drop their axis, one "
+          "ellipsis expands to full slices, for any rank. Correspondence: the model (image of compute_range / compute_step / compute_index / shape_slice / slice / "
           "shape_dynamic_slice / dynamic_slice) is compared with the real C++ on the whole per-axis box in four encodings "
           "(typed tuple through apply_*; direct variadic call with std::array shape; run-time list of either; list of "
-          "std::array<int,K>), length AND every source index, and on seeded 1..3-axis combinations with integers and an "
+          "std::array<int,K>; plus compile-time-constant parts for a table of non-negative values), length AND every source index, and on seeded 1..3-axis combinations with integers and an "
           "ellipsis at index and at view level. impl = model is required wherever the model is defined; impl = Python "
           "is required on slice_core and wherever the model agrees with Python; the remaining disagreement with Python "
           "is the known finding (class predicate = the pinned model itself), so any new deviation is a violation."),
@@ -32,16 +33,22 @@ RULE = ("stream box: every n in 1..6, start/stop in [-(n+2), n+2] or None, step 
         "element); stream single: view::slice(a, one slice) on 1-d arrays. "
         "non-trivial = a case with at least one integer bound or step; distinct = distinct case lines")
 THEOREM_STATUS = {"proved": ["C05_slice_python_on_core", "C05_python_index_in_bounds", "C05_multi_axis",
-                             "C05_internal_slices_in_core", "C05_core_sound_on_box", "C05_core_coverage_on_box"],
+                             "C05_encodings_agree_on_domain", "C05_internal_slices_in_core", "C05_core_sound_on_box",
+                             "C05_core_coverage_on_box", "C05_float_model_consistent_on_sample"],
                   "partial": [],
                   "refuted": ["C05_refuted_negative_start_open", "C05_refuted_start_past_end", "C05_refuted_stop_below_minus_n",
                               "C05_refuted_crossed_bounds", "C05_refuted_open_start_negative_step",
-                              "C05_refuted_negative_step_start", "C05_refuted_on_box"]}
+                              "C05_refuted_negative_step_start", "C05_refuted_float_len", "C05_refuted_on_box",
+                              "C05_refuted_encodings_agree", "C05_refuted_single_range_view"]}
 ASSUMPTIONS = [
-    "binary32: (float)s / step is taken as exact-ceiling for |s|, step <= 2^24 (argued in Slice.v, corresponded near the boundary); "
-    "larger operands are outside the model (outcome LenInexact)",
-    "signed int overflow in bound arithmetic (|bound| near 2^31) is modelled as wrap-around; every theorem bounds its inputs",
-    "the two encodings are ONE Gallina function; their agreement is corresponded on every case, not proved",
+    "binary32: for |range|, step <= 2^24 the model takes ceil((float)range/step) to be the exact ceiling (argued in Slice.v; "
+    "cross-checked against the bit-level computation f32r on 16 560 operand pairs by C05_float_model_consistent_on_sample and "
+    "against the C++ on every case); larger operands use the bit-level computation",
+    "signed int overflow in bound arithmetic is modelled as wrap-around; every theorem requires -2^31 < bound < 2^31-1",
+    "shapes and indices have element type size_t (what views pass); an int-typed shape changes the dynamic path's arithmetic",
+    "the two encodings share ONE Gallina function for the per-axis arithmetic (their C++ differences do not change a value); "
+    "their agreement is corresponded on every case; the one modelled difference is the trailing-ellipsis shape read",
+    "well-formed indices only: parts account for every axis (the header has no error handling for other calls)",
 ]
 
 
@@ -87,6 +94,12 @@ def gen_cases(rng, tier):
                         encs = [encs[n_enc[pat] % len(encs)]]
                     for e in encs:
                         add("box", "ax S:%s I:%d %s %s %s" % (e, n, P(a), P(b), P(c)), "a")
+    # ---- compile-time-constant parts (fixed table instantiated in the driver)
+    for n in range(1, 7):
+        for a in (None, 0, 1, 2):
+            for b in (None, 1, 3, 5):
+                for c in ("O", 1, 2):
+                    add("box", "ax S:ct I:%d %s %s %s" % (n, P(a), P(b), P(c)), "a")
     # ---- large extents, index math only (the length goes through binary32 above 2^24)
     big = [2**24 - 1, 2**24, 2**24 + 1, 2**24 + 3, 2**25 + 7, 2**27 + 11, 2**31 - 200, 2**31 - 65, 2**31 - 64, 2**31 - 1]
     for n in big:
